@@ -4,8 +4,9 @@
 #   tools/mutant_lab.sh sync                 refresh /tmp/vm from /verif (keeps its own build output)
 #   tools/mutant_lab.sh run <patch|-R commit> <Cxx> [Cyy…]   apply to a fresh worktree, run the quick checks there
 #   tools/mutant_lab.sh clean
-LAB=/tmp/vm
-WT=/tmp/wt
+# VERIF_LAB / VERIF_WT choose other directories, so that several labs can run side by side
+LAB=${VERIF_LAB:-/tmp/vm}
+WT=${VERIF_WT:-/tmp/wt}
 case "$1" in
 sync)
   mkdir -p $LAB
